@@ -78,7 +78,37 @@ def make_transform(c):
     raise KeyError(k)
 
 
+def interleaved(torch, tr, x, y, report):
+    """One transform object asked about (x, y) AFTER its forward map went over other points (other values, another
+    batch shape): the report and the inverse must be those of (x, y), not of the last point seen."""
+    try:
+        others = [x * 0.6 + 0.07, torch.stack([x * 0.9 + 0.01, x * 1.1 + 0.02])]
+        for o in others:
+            tr(o)
+        again = tr.log_abs_det_jacobian(x, y)
+        if again.shape != report.shape or not torch.allclose(again, report, rtol=1e-12, atol=1e-12):
+            return (f"log_abs_det_jacobian(x, y) = {report.reshape(-1).tolist()[:4]} right after y = t(x), but "
+                    f"{again.reshape(-1).tolist()[:4]} once t has been applied to two other points in between")
+        try:
+            y2 = tr(x)
+            i1 = tr.inv(y2)
+            tr.inv(tr(others[0]))
+            i2 = tr.inv(y2)
+            if i1.shape != i2.shape or not torch.allclose(i1, i2, rtol=1e-12, atol=1e-12):
+                return "inv(y) changes once the inverse has been applied to another point in between"
+        except NotImplementedError:
+            pass
+    except Exception as e:  # noqa
+        return f"{type(e).__name__}: {str(e)[:140]}"
+    return None
+
+
 def run_impl(c):
+    out = run_impl_(c)
+    return out
+
+
+def run_impl_(c):
     torch = impl.load()
     from torch.autograd.functional import jacobian
     k = c["kind"]
@@ -106,6 +136,7 @@ def run_impl(c):
         out["y"] = y.tolist()
         out["inv"] = tr.inv(y).tolist()
         out["logdet"] = float(tr.log_abs_det_jacobian(x, y))
+        out["interleaved_bad"] = interleaved(torch, tr, x, y, tr.log_abs_det_jacobian(x, y))
         out["model_call"] = float(tm())                    # ReparameterizedTimeTreeModel() reports it too
         J = jacobian(lambda v: tr(v), x)
         out["autograd"] = float(torch.linalg.slogdet(J)[1])
@@ -119,6 +150,7 @@ def run_impl(c):
         y = tr(x)
         out["y"] = y.tolist()
         out["logdet"] = float(tr.log_abs_det_jacobian(x, y))
+        out["interleaved_bad"] = interleaved(torch, tr, x, y, tr.log_abs_det_jacobian(x, y))
         J = jacobian(lambda v: tr(v), x)
         out["autograd"] = float(torch.linalg.slogdet(J)[1])
         out["preorder"] = tm.preorder.tolist()
@@ -142,6 +174,8 @@ def run_impl(c):
     ld = tr.log_abs_det_jacobian(x, y)
     out["logdet_raw"] = ld.tolist() if ld.dim() else float(ld)
     out["logdet"] = float(ld.sum())
+    out["interleaved_bad"] = interleaved(torch, tr, x if k != "log" else x.abs() + 0.05, y if k != "log" else tr(x.abs() + 0.05),
+                                         tr.log_abs_det_jacobian(x if k != "log" else x.abs() + 0.05, y if k != "log" else tr(x.abs() + 0.05)))
     # the same transform on a batch [S, n] and [S, K, n]: every row must be what the row gives alone
     rows = [x, x * 0.5 + (0.25 if k == "log" else 0.1), torch.flip(x, [-1])]
     if k == "log":
@@ -239,6 +273,8 @@ def property_on_impl(c, o):
                 return "inverse", f"inv(forward(x))[{i}] = {a!r} but x[{i}] = {b!r}"
     if o.get("batched_bad"):
         return "batched", o["batched_bad"]
+    if o.get("interleaved_bad"):
+        return "interleaved", o["interleaved_bad"]
     if o.get("logdet") is None or k == "trilexp":
         return None
     if not (abs(o["logdet"] - o["autograd"]) <= 1e-8 * max(1.0, abs(o["autograd"]))):
